@@ -150,8 +150,8 @@ Proof.
 Qed.
 
 (* ---------- the input is drained when the helper sees it closed and empty ---------- *)
-Lemma drained_input c p :
-  feeder_ok vs (gett c 1) (qapp (getq c 0)) (qclosed (getq c 0)) -> chan c 0 1 p ->
+Lemma drained_input c f p :
+  feeder_ok vs (gett c f) (qapp (getq c 0)) (qclosed (getq c 0)) -> chan c 0 f p ->
   tph (gett c p) = PIdle -> qclosed (getq c 0) = true -> qtok (getq c 0) = 0 ->
   qpop (getq c 0) = vs.
 Proof.
@@ -177,7 +177,7 @@ Proof.
   - (* helper *)
     destruct (Nat.eq_dec t 0) as [->|Hn].
     + apply forkh_step with c; auto; try lia. apply (fi_h _ _ _ _ I).
-      intros Hph. apply drained_input with 0; auto. apply (fi_f _ _ _ _ I).
+      intros Hph. apply drained_input with 1 0; auto. apply (fi_f _ _ _ _ I).
       apply (fi_ch _ _ _ _ I 0). lia.
     + rewrite Hother by auto.
       apply forkh_frame with (qpop (getq c 0)) (qclosed (getq c 0)) (view_app c) (view_cl c).
